@@ -262,6 +262,14 @@ def _newtable(w, ev, slot, name, do, expected, oracle, args=(), adopt=None,
                                '%s refused but an input changed' % name)
         return name + ':refused'
     if refuse:
+        msg = None
+        try:
+            msg = coherence(res, w.absent_id())
+        except Exception:  # noqa
+            pass
+        if msg:
+            w.fail(oracle + '.incoherent', '%s accepted (%s) and returned an '
+                   'incoherent table: %s' % (name, expected, msg))
         w.fail(oracle + '.accepted', '%s accepted: %s' % (name, expected))
     for s in others:
         if res is s.real:
@@ -448,11 +456,21 @@ def op_sort_order(w, ev, slot):
     perm = _perm(ev.get('perm'), ref.n(ax))
     names = [ref.ids[ax][i] for i in perm]
     unknown = bool(ev.get('unk', 0))
+    dup = bool(ev.get('dup', 0)) and len(names) >= 2 and not unknown
     if unknown:
         w.stats['fault.F2.armed'] += 1
         names[ev.get('salt', 0) % len(names)] = w.absent_like(
             ref.ids[ax], ev.get('unk', 1))
         expected = ModelError('unknown id in order')
+    elif dup:
+        # an order naming an id twice is not a permutation: it cannot yield
+        # a table (ids must stay unique)
+        k = ev.get('salt', 0) % len(names)
+        if ev.get('dup') == 1:
+            names.append(names[k])
+        else:
+            names[(k + 1) % len(names)] = names[k]
+        expected = ModelError('order repeats an id')
     else:
         expected = ref.take(ax, perm)
     form = ev.get('form', 0) % 2
